@@ -23,7 +23,7 @@ Proof. exact step_compile_error. Qed.
 Print Assumptions C09_compile_error_recorded.
 
 Theorem C09_directive_error_recorded : forall requires_met cfg oc s i p e,
-  r_end s = E_running -> rs_update requires_met (r_rs s) (p_directives p) = UErr e ->
+  r_end s = E_running -> part_update requires_met (r_rs s) p = UErr e ->
   fails_with (step requires_met cfg oc s i p) i F_directive.
 Proof. exact step_directive_error. Qed.
 Print Assumptions C09_directive_error_recorded.
